@@ -124,8 +124,14 @@ def main():
     out.append("")
     th = sorted(glob.glob(os.path.join(V, "evidence", "thorough", "C*.json")))
     if th:
-        out.append("Thorough tier on the final tree (VERIF_SEED=0, one run per property, copies of the evidence files in "
-                   "`evidence/thorough/`):")
+        out.append("Thorough tier (VERIF_SEED=0, one run per property, copies of the evidence files in `evidence/thorough/`). "
+                   "The sweep ran while the last fixes were still being made: C07 ran on /repo `f2407a4`, C12 on `dcc7141`, "
+                   "C08 on `dcc7141`/`1c8a0f0`, the others on `1c8a0f0` or `45b14ca` (the final HEAD); every check whose "
+                   "subject those last commits touch (C02, C09, C10, C15, C18, C19) was re-run on `45b14ca`. The first pass "
+                   "found three things the quick tier had not: the layout decomposition moving placed entities (C18, fixed "
+                   "`1c8a0f0`), a regression of my own fix `7043904` (C02, fixed `45b14ca`) and a false alarm of C10 (8.5); "
+                   "it also crashed C08 / C18 in a generator (8.5). Quick tiers were additionally run with VERIF_SEED 1, 2, 3 "
+                   "(`PYTHONHASHSEED=0`, fresh processes): no violation.")
         out.append("")
         out.append("| id | cases | held | listed | vacuous / inconclusive | skipped (budget) | evaluations | distinct non-trivial | wall s | verdict |")
         out.append("|---|---|---|---|---|---|---|---|---|---|")
@@ -136,7 +142,7 @@ def main():
             out.append("| %s | %s | %s | %s | %s / %s | %s | %s | %s | %s | %s |" % (
                 e["property_id"], cs.get("cases"), cs.get("held", 0), cs.get("known", 0), cs.get("vacuous", 0),
                 cs.get("inconclusive", 0), cs.get("skipped", 0), c.get("evaluations"), c.get("distinct_nontrivial"),
-                e.get("wall_s", ""), "held" if not e.get("violations") else "%d violation(s)" % len(e["violations"])))
+                e.get("wall_s", ""), "held" if not e.get("violations") else "%s violation(s)" % e["violations"]))
         out.append("")
     # 8.2
     fixed = kf.get("fixed", [])
